@@ -165,6 +165,7 @@ func kinds() []kind {
 // multiParam is one parameter of a several-parameter scenario.
 type multiParam struct {
 	Name, Type, Loc, Val, JSON string
+	NewDecl                    bool
 }
 
 type caseInfo struct {
@@ -280,7 +281,7 @@ func buildCases(tier string) ([]scen.Case, map[string]caseInfo) {
 		}
 	}
 	permute(nil, 0)
-	base4 := []multiParam{{"pa", "string", "Path", "va", `"va"`}, {"qb", "string", "Query", "vb", `"vb"`}, {"hc", "string", "Header", "vc", `"vc"`}, {"fd", "string", "FormField", "vd", `"vd"`}}
+	base4 := []multiParam{{Name: "pa", Type: "string", Loc: "Path", Val: "va", JSON: `"va"`}, {Name: "qb", Type: "string", Loc: "Query", Val: "vb", JSON: `"vb"`}, {Name: "hc", Type: "string", Loc: "Header", Val: "vc", JSON: `"vc"`}, {Name: "fd", Type: "string", Loc: "FormField", Val: "vd", JSON: `"vd"`}}
 	addMulti := func(ps []multiParam, grouped bool, ctxAt int, family string) {
 		id := fmt.Sprintf("b%04d", n)
 		n++
@@ -290,7 +291,7 @@ func buildCases(tier string) ([]scen.Case, map[string]caseInfo) {
 			if i == ctxAt {
 				m.Params = append(m.Params, scen.Param{Name: "ctx", Type: "context.Context"})
 			}
-			m.Params = append(m.Params, scen.Param{Name: p.Name, Type: p.Type, In: p.Loc})
+			m.Params = append(m.Params, scen.Param{Name: p.Name, Type: p.Type, In: p.Loc, NewDecl: p.NewDecl})
 			if p.Loc == "Path" {
 				route += "/{" + p.Name + "}"
 			}
@@ -313,10 +314,15 @@ func buildCases(tier string) ([]scen.Case, map[string]caseInfo) {
 		addMulti(ps, true, -1, "4-strings")
 		addMulti(ps, false, pi%5-1, "4-strings")
 	}
-	ints := []multiParam{{"n1", "int", "Query", "1", "1"}, {"n2", "int", "Query", "2", "2"}, {"n3", "int", "Query", "3", "3"}, {"lim", "string", "Query", "x", `"x"`}, {"n4", "int", "Header", "4", "4"}}
+	ints := []multiParam{{Name: "n1", Type: "int", Loc: "Query", Val: "1", JSON: "1"}, {Name: "n2", Type: "int", Loc: "Query", Val: "2", JSON: "2"}, {Name: "n3", Type: "int", Loc: "Query", Val: "3", JSON: "3"}, {Name: "lim", Type: "string", Loc: "Query", Val: "x", JSON: `"x"`}, {Name: "n4", Type: "int", Loc: "Header", Val: "4", JSON: "4"}}
 	addMulti(ints, true, -1, "grouped-ints-then-string")
 	addMulti([]multiParam{ints[3], ints[0], ints[1], ints[2]}, true, -1, "string-then-grouped-ints")
 	addMulti([]multiParam{ints[0], ints[3], ints[1], ints[4], ints[2]}, false, 2, "alternating-types")
+	// "from, to, cursor string, tenant string": a group of three followed by a declaration of the same type
+	sep := func(p multiParam) multiParam { p.NewDecl = true; return p }
+	addMulti([]multiParam{base4[1], base4[2], base4[3], sep(base4[0])}, true, -1, "three-grouped-then-same-type")
+	addMulti([]multiParam{base4[0], sep(base4[1]), base4[2], base4[3]}, true, -1, "one-then-three-grouped-same-type")
+	addMulti([]multiParam{base4[1], base4[2], sep(base4[3]), base4[0]}, true, 1, "two-groups-of-two-same-type")
 	return cases, inf
 }
 
